@@ -264,3 +264,36 @@ func shortFile(f string) string {
 
 // Hex is a debugging aid for harness authors.
 func Hex(b []byte) string { return hex.EncodeToString(b) }
+
+// ---- branch-free boolean connectives (a harness oracle written with && / || forks the path) -------
+
+func And(a, b bool) bool     { return a && b }
+func Or(a, b bool) bool      { return a || b }
+func Implies(a, b bool) bool { return !a || b }
+func All(bs ...bool) bool {
+	for _, b := range bs {
+		if !b {
+			return false
+		}
+	}
+	return true
+}
+func Any(bs ...bool) bool {
+	for _, b := range bs {
+		if b {
+			return true
+		}
+	}
+	return false
+}
+
+// EqBytes compares two byte strings without forking (different lengths: false).
+func EqBytes(a, b []byte) bool { return string(a) == string(b) }
+
+// IteInt returns a if c else b without forking.
+func IteInt(c bool, a, b int) int {
+	if c {
+		return a
+	}
+	return b
+}
